@@ -81,6 +81,8 @@ type expJ struct {
 	U2 unpJ   `json:"u2"`
 	// Gen is the "generous" payloadStart distance of the run that produced the case (0: the run's parameter)
 	Gen int `json:"gen,omitempty"`
+	// Mig is set on the replies of a session that changes its address (specs/Packet/UdpSession.tla, live_test.go)
+	Mig *migJ `json:"mig,omitempty"`
 }
 
 type params struct {
